@@ -85,6 +85,11 @@ func c05BigImport(p *drv.Plan) *Out {
 	out.Sample = "big-import: 10500 keys in two versions, export of version 2, import, every cut of the import's physical writes"
 	cfg := p.Config
 	cfg.InitVer, cfg.InitMode = 0, ""
+	if cfg.Flush > 0 && cfg.Flush < 1500 {
+		cfg.Flush = 1500 // a write per node would make this one run cost minutes
+	}
+	pc := *p
+	pc.Config = cfg
 	src := drv.NewWorld(cfg)
 	if err := src.Open(); err != nil {
 		return out
@@ -130,11 +135,28 @@ func c05BigImport(p *drv.Plan) *Out {
 	}
 	stepLog := disk.Log(0, n)
 	cuts := 0
+	// With a small flush threshold the import is tens of thousands of physical
+	// writes: the first and last boundaries plus a seeded sample keep the run
+	// within its budget (all boundaries when there are few).
+	pick := map[int]bool{}
+	if n > 24 {
+		r := drv.SubRand(p, "c05-big-cuts")
+		for i := 1; i <= 6; i++ {
+			pick[i], pick[n-i] = true, true
+		}
+		for len(pick) < 24 {
+			pick[1+r.Intn(n-1)] = true
+		}
+	}
+	out.Stats["import_cuts_sampled"] = len(pick)
 	for cut := 1; cut < n; cut++ {
+		if len(pick) > 0 && !pick[cut] {
+			continue
+		}
 		cuts++
 		out.Faults["crash.expimp"]++
 		cls := "expimp-big/" + spacesOf(stepLog, cut)
-		_, v := checkCut(p, recs, 0, rec, cut, cls)
+		_, v := checkCut(&pc, recs, 0, rec, cut, cls)
 		if v != nil {
 			v.StepID = 1
 			out.Violations = append(out.Violations, v)
@@ -288,6 +310,30 @@ func checkCut(p *drv.Plan, recs []*stepRec, ri int, rec *stepRec, cut int, cls s
 		w2.M, w2.T = newM.Clone(), newT.Clone()
 		vNew := w2.Guard("C05", "C05.old-or-new", cls, func() *drv.Violation { return auditCrashState(w2) })
 		if vNew != nil {
+			// A rollback over several versions that stopped at a version in
+			// between is neither old nor new either, but it is a different
+			// thing from a damaged state: every version that is left is intact.
+			// It gets a symptom of its own so that the two are never confused.
+			if rec.step.Op == drv.OpLVFO || rec.step.Op == drv.OpDVF {
+				for t := oldT.Latest - 1; t > newT.Latest; t-- {
+					if !oldM.Has(t) {
+						continue
+					}
+					w2.M, w2.T = oldM.Clone(), oldT.Clone()
+					w2.M.RollbackTo(t)
+					w2.T.RollbackTo(t)
+					if vMid := w2.Guard("C05", "C05.old-or-new", cls, func() *drv.Violation { return auditCrashState(w2) }); vMid == nil {
+						// repeating the rollback must still reach the crash-free result
+						if v := w2.Apply(rec.step); v != nil {
+							return "intermediate+retry-fails", &drv.Violation{Prop: "C05", Oracle: "C05.retry", Symptom: "retry-diverges", Class: cls, Detail: fmt.Sprintf("a stop at write %d of step %s left the store at version %d, and repeating the rollback failed: %s", cut-rec.lo, rec.step.String(), t, v.Error())}
+						}
+						if v := w2.Guard("C05", "C05.retry", cls, func() *drv.Violation { return auditCrashState(w2) }); v != nil {
+							return "intermediate+retry-diverges", &drv.Violation{Prop: "C05", Oracle: "C05.retry", Symptom: "retry-diverges", Class: cls, Detail: fmt.Sprintf("a stop at write %d of step %s left the store at version %d, and after repeating the rollback: %s", cut-rec.lo, rec.step.String(), t, v.Error())}
+						}
+						return "intermediate", bad("intermediate-version", fmt.Sprintf("the rollback from version %d to version %d stopped at version %d: every remaining version is intact, but the state is neither the one before nor the one after", oldT.Latest, newT.Latest, t))
+					}
+				}
+			}
 			return "mixture", bad("mixture", fmt.Sprintf("state is neither the one before (%s) nor the one after (%s)", firstLine(vOld.Detail), firstLine(vNew.Detail)))
 		}
 		state = "new"
